@@ -16,6 +16,7 @@ pub struct DeadlineOutcome {
     /// the same for the `dl` stream
     pub dl: Vec<(String, String)>,
     pub fails: Vec<(String, String)>,
+    pub stalled: bool,
 }
 
 struct Timing { ticks: usize, last_h: u128, first_f: Option<u128> }
@@ -36,14 +37,30 @@ pub async fn deadline_sessions(patience: Duration) -> Option<DeadlineOutcome> {
     for d in &flight4 { flight5.extend(c.inject(d, c_src).await); }
     let mut fails = vec![];
     if flight5.is_empty() || c.ep.letter() != 'H' || s.ep.letter() != 'H' { return None; }
+    // a pair that completes its handshake and is then left alone across the deadline: the deadline must not touch it
+    let (cc2, sc2) = certs();
+    let mut c2 = Recd::new(true, cc2.clone(), Some(fingerprint(&sc2))).await;
+    let mut s2 = Recd::new(false, sc2, None).await;
+    let (c2_src, s2_src) = (c2.ep.sink_addr, s2.ep.sink_addr);
+    let _ = s2.start().await;
+    let mut to_s: Vec<Vec<u8>> = c2.start().await;
+    for _ in 0..8 {
+        let mut to_c = vec![];
+        for d in to_s.drain(..) { to_c.extend(s2.inject(&d, s2_src).await); }
+        for d in to_c { to_s.extend(c2.inject(&d, c2_src).await); }
+        if to_s.is_empty() { break; }
+    }
+    if c2.ep.letter() != 'C' || s2.ep.letter() != 'C' { return None; }
     // ---- the network is dead from here on
     let names = ["lone-client", "stuck-client", "stuck-server"];
     let mut tm: Vec<Timing> = (0..3).map(|_| Timing { ticks: 0, last_h: 0, first_f: None }).collect();
     let t0 = Instant::now();
     let mut last_poll = Instant::now();
+    let mut stalled = false;
+    let mut connected_pair_sent = false;
     loop {
         tokio::time::sleep(Duration::from_millis(120)).await;
-        if last_poll.elapsed() > Duration::from_millis(700) { return None; }
+        if last_poll.elapsed() > Duration::from_millis(700) { stalled = true; }
         last_poll = Instant::now();
         for (i, r) in [&mut lone, &mut c, &mut s].into_iter().enumerate() {
             if tm[i].first_f.is_some() { continue; }
@@ -53,13 +70,29 @@ pub async fn deadline_sessions(patience: Duration) -> Option<DeadlineOutcome> {
             if failed { tm[i].first_f = Some(r.ep.started.elapsed().as_millis()); }
             else if r.ep.letter() == 'H' { tm[i].last_h = before; }
         }
-        if tm.iter().all(|t| t.first_f.is_some()) || t0.elapsed() > patience { break; }
+        // the Connected pair: its loops are polled as well (a deadline that wrongly fires there needs a poll to show)
+        let (a, b) = (c2.poll_timers().await, s2.poll_timers().await);
+        if a.0 + b.0 > 0 { connected_pair_sent = true; }
+        // everybody failed and the Connected pair is past its own deadline by a second, or patience is over
+        let past = c2.ep.started.elapsed() > Duration::from_secs(32) || c2.ep.letter() != 'C' || s2.ep.letter() != 'C';
+        if (tm.iter().all(|t| t.first_f.is_some()) && past) || t0.elapsed() > patience { break; }
     }
     // a Failed endpoint is dead: the datagrams it was waiting for change nothing any more
     if s.ep.letter() == 'F' {
         let mut out = vec![];
         for d in &flight5 { out.extend(s.inject(d, s_src).await); }
         if !out.is_empty() || s.ep.letter() != 'F' { fails.push(("conv:deadline:failed-endpoint-reacted-to-a-datagram".to_string(), "stuck-server".to_string())); }
+    }
+    // the Connected pair must still be Connected, silent, and able to exchange application data
+    let age = c2.ep.started.elapsed().as_millis();
+    if c2.ep.letter() != 'C' || s2.ep.letter() != 'C' {
+        fails.push((format!("conv:deadline:connected-transport-ended-{}{}-at-the-handshake-deadline", c2.ep.letter(), s2.ep.letter()), format!("connected pair, {age} ms after start")));
+    } else {
+        if connected_pair_sent { fails.push(("conv:retransmission-after-both-connected".to_string(), "connected pair held across the deadline".to_string())); }
+        let before = s2.outs.len();
+        for d in c2.send(b"still alive after the deadline").await { s2.inject(&d, s2_src).await; }
+        let got = s2.outs[before..].iter().any(|o| o.contains(&crate::hex(b"still alive after the deadline")));
+        if !got { fails.push(("conv:app-data-unreadable-between-connected-peers".to_string(), "connected pair held across the deadline".to_string())); }
     }
     let mut dl = vec![];
     for (i, t) in tm.iter().enumerate() {
@@ -73,7 +106,10 @@ pub async fn deadline_sessions(patience: Duration) -> Option<DeadlineOutcome> {
             fails.push((format!("state:watch-channel-differs-from-state:{}", o.split(',').next().unwrap_or("")), names[i].to_string()));
         }
     }
-    Some(DeadlineOutcome { hs: vec![lone.lines(), c.lines(), s.lines()], dl, fails })
+    // if the harness thread was held up for long, the exact tick history / timing is not trustworthy (a retransmission may
+    // have been skipped): those lines are dropped — the oracles above do not depend on them
+    if stalled { return Some(DeadlineOutcome { hs: vec![c2.lines(), s2.lines()], dl: vec![], fails, stalled: true }); }
+    Some(DeadlineOutcome { hs: vec![lone.lines(), c.lines(), s.lines(), c2.lines(), s2.lines()], dl, fails, stalled: false })
 }
 
 /// run the sessions on a thread of their own (the caller goes on with its other cases meanwhile)
@@ -93,10 +129,10 @@ pub fn record(run: &mut crate::Run, h: std::thread::JoinHandle<Option<DeadlineOu
         Some(o) => {
             for (i, l) in &o.hs { run.case("hs", i, l, true); }
             for (i, l) in &o.dl { run.case("dl", i, l, true); }
-            run.count("deadline_sessions");
+            run.count(if o.stalled { "deadline_sessions_timing_lines_dropped" } else { "deadline_sessions" });
             for (sig, d) in o.fails { run.fail(&sig, "deadline", &d); }
         }
-        None => run.count("deadline_skipped_timing"),
+        None => { run.count("deadline_skipped"); run.fail("conv:deadline:sessions-could-not-be-run", "deadline", "the set-up handshakes of the deadline block did not reach their start states twice in a row"); }
     }
 }
 
